@@ -204,6 +204,11 @@ def main():
         def mk_lincomb(self, value, lc):
             return rt.LinComb(value, lc)
 
+        def client(self, src, **bindings):
+            ns = dict(bindings)
+            exec(compile(src, "<client>", "exec"), ns)
+            return ns["prog"]
+
         def mk_bool(self, lincomb):
             return pysnark.boolean.LinCombBool(lincomb, False)
 
